@@ -17,6 +17,9 @@ type specVal struct {
 
 var mathInt types.Type = types.Typ[types.UntypedInt]
 
+// maxFuel: how often a recursive spec function is unfolded per occurrence
+const maxFuel = 2
+
 type SpecEnv struct {
 	e       *Engine
 	st      *State
@@ -52,7 +55,19 @@ func (env *SpecEnv) lookup(name string) (specVal, bool) {
 	if v, ok := env.vars[name]; ok {
 		return v, true
 	}
-	fr := env.fr
+	if v, ok := env.lookupIn(env.fr, name); ok {
+		return v, true
+	}
+	// closures executed in the context of their creator: names of the enclosing function
+	for fr := env.fr; fr != nil && fr.fn.Parent() != nil && fr.caller != nil; fr = fr.caller {
+		if v, ok := env.lookupIn(fr.caller, name); ok {
+			return v, true
+		}
+	}
+	return specVal{}, false
+}
+
+func (env *SpecEnv) lookupIn(fr *Frame, name string) (specVal, bool) {
 	if fr == nil {
 		return specVal{}, false
 	}
@@ -644,9 +659,26 @@ func (env *SpecEnv) evalCall(n ECall) specVal {
 			}
 		}
 		return specVal{acc, mathInt}
+	case "mapvals_nonnil":
+		// every value stored in the map (of pointer type) is non-nil
+		m := env.eval(n.Args[0])
+		mt, ok := under(m.t).(*types.Map)
+		if !ok {
+			sfail("mapvals_nonnil needs a map")
+		}
+		dom, _, vals := env.e.mapHeaps(mt)
+		ks := env.e.keySort(mt.Key())
+		d := Select(env.curHeapGet(dom.name, dom.sort), m.v.(Term))
+		v0 := Select(env.curHeapGet(vals[0].name, vals[0].sort), m.v.(Term))
+		q := fmt.Sprintf("(forall ((qk %s)) (! (=> (select %s qk) (not (= (select %s qk) 0))) :pattern ((select %s qk))))", ks, d.S, v0.S, v0.S)
+		return specVal{Term{q, SBool}, boolT}
 	case "ifaceval":
 		// ifaceval(i): the value boxed in interface i (for single-word boxed values)
 		x := env.eval(n.Args[0])
+		if t, isTerm := x.v.(Term); isTerm {
+			// a type-parameter typed value used as an interface is passed through unboxed
+			return specVal{t, mathInt}
+		}
 		iv, ok := x.v.(VIface)
 		if !ok {
 			sfail("ifaceval of %T", x.v)
@@ -725,7 +757,7 @@ func (env *SpecEnv) evalCall(n ECall) specVal {
 		}
 		if sf.Rec && sf.Body != nil {
 			// recursive spec functions carry a fuel argument (bounded unfolding, Dafny style)
-			fuel := 2
+			fuel := env.e.curFuel()
 			if env.fuelSet {
 				fuel = env.fuel
 			}
@@ -830,7 +862,7 @@ func (e *Engine) specPrelude(formula string) string {
 			bind := strings.Join(ps, " ")
 			argl := strings.Join(names, " ")
 			var axs []string
-			for fuel := 2; fuel >= 1; fuel-- {
+			for fuel := e.curFuel(); fuel >= 1; fuel-- {
 				env.fuelSet, env.fuel = true, fuel-1
 				body := evalBody()
 				axs = append(axs, fmt.Sprintf("(assert (forall (%s) (! (= (%s %d %s) %s) :pattern ((%s %d %s)))))", bind, sym, fuel, argl, body.S, sym, fuel, argl))
@@ -951,4 +983,11 @@ func (env *SpecEnv) evalTypeInv(n ECall) specVal {
 		cs = append(cs, sub.Bool(cl.E))
 	}
 	return specVal{And(cs...), types.Typ[types.Bool]}
+}
+
+func (e *Engine) curFuel() int {
+	if e.fuel > 0 {
+		return e.fuel
+	}
+	return maxFuel
 }
